@@ -323,8 +323,7 @@ fn spawn_async_ao_list_in_task'''),
             shell.apply_errexit_if_enabled(&mut result);'''),
         ('err-trap-in-exempt-context', IN, 'if !result.is_success() && !params.suppress_errexit && !self.bang {', 'if !result.is_success() && !self.bang {'),
         ('bang-inversion-wrong', IN, 'ExecutionExitCode::from(if result.is_success() { 1 } else { 0 });', 'ExecutionExitCode::from(if result.is_success() { 0 } else { 1 });'),
-        ('status-set-before-inversion', IN, '''        // Invert the exit code if requested.
-        if self.bang {
+        ('status-set-before-inversion', IN, '''        if self.bang && !result.is_return_or_exit() {
             result.exit_code = ExecutionExitCode::from(if result.is_success() { 1 } else { 0 });
         }
 
@@ -332,8 +331,7 @@ fn spawn_async_ao_list_in_task'''),
         shell.set_last_exit_status(result.exit_code.into());''', '''        // Update exit status.
         shell.set_last_exit_status(result.exit_code.into());
 
-        // Invert the exit code if requested.
-        if self.bang {
+        if self.bang && !result.is_return_or_exit() {
             result.exit_code = ExecutionExitCode::from(if result.is_success() { 1 } else { 0 });
         }'''),
         ('errexit-never-applied', IN, '''        if !params.suppress_errexit && !self.bang {
